@@ -35,6 +35,19 @@ var prodDefs = []prodDef{
 }
 
 func checkProduct(c prodCase) *vk.Failure {
+	if c.A.Cont == contIndet || c.B.Cont == contIndet {
+		// both factors (in)determinate together, so that one wrapper serves
+		c.A.Cont, c.B.Cont = contIndet, contIndet
+	}
+	return withIndet(c.A, func(g G) *vk.Failure {
+		c2 := c
+		c2.A = g
+		c2.B.Cont = g.Cont
+		return checkProduct1(c2)
+	})
+}
+
+func checkProduct1(c prodCase) *vk.Failure {
 	c.B.Dir = c.A.Dir
 	dir := c.A.Dir
 	ma, mb := model(c.A), model(c.B)
@@ -193,7 +206,7 @@ func TestProduct(t *testing.T) {
 	vk.Run(t, "product", vk.Opts{Quick: 4000, Thorough: 60000, NoCrumb: true}, func(t *rapid.T) prodCase {
 		dir := rapid.Bool().Draw(t, "dir")
 		classes := []string{"sparse", "half", "dense", "tree", "cycle"}
-		conts := []int{contOrdered, contSimple}
+		conts := []int{contOrdered, contSimple, contIndet}
 		c := prodCase{A: drawG(t, dir, 5, classes, conts), B: drawG(t, dir, 5, classes, conts)}
 		if rapid.Bool().Draw(t, "agree") {
 			c.Agree = rapid.Uint64Range(1, 1<<40).Draw(t, "agreeseed")
